@@ -19,7 +19,7 @@ for mod in ['cesium','aspen','core','x/go','freighter/go']:
 print(' '.join(out))
 PY
 )
-run_demo() { cp $demo_file $wt/$demo_rel; (cd $wt && bash -c "$demo_cmd" > /tmp/seedverify_demo.$$ 2>&1); rc=$?; rm -f $wt/$demo_rel; return $rc; }
+run_demo() { cp $demo_file $wt/$demo_rel; demo_cmd=${demo_cmd//<repo>/$wt}; (cd $wt && bash -c "$demo_cmd" > /tmp/seedverify_demo.$$ 2>&1); rc=$?; rm -f $wt/$demo_rel; return $rc; }
 run_demo; clean_rc=$?
 git apply $sd/patch.diff || { echo "RESULT $sd patch-does-not-apply"; exit 1; }
 run_demo; patched_rc=$?
